@@ -35,7 +35,7 @@ try:
     import re
     dp = os.path.join(vdir, 'demo.py')
     txt = open(dp).read()
-    txt2 = re.sub(r'/tmp/mut2?_C\d\d', scratch, txt)
+    txt2 = re.sub(r'/tmp/mut\d?_C\d\d', scratch, txt)
     if txt2 != txt:
         open(dp, 'w').write(txt2)
     # demo on the unchanged code
